@@ -450,41 +450,34 @@ func (spt *Tracker) pinFromState(ctx context.Context, c cid.Cid) *api.Pin {
 	return pin
 }
 
-func (spt *Tracker) ipfsStatusAll(ctx context.Context) (map[cid.Cid]*api.PinInfo, error) {
+func (spt *Tracker) ipfsStatusAll(ctx context.Context) (map[cid.Cid]api.IPFSPinStatus, error) {
 	ctx, span := trace.StartSpan(ctx, "tracker/stateless/ipfsStatusAll")
 	defer span.End()
 
-	var ipsMap map[string]api.IPFSPinStatus
-	err := spt.rpcClient.CallContext(
-		ctx,
-		"",
-		"IPFSConnector",
-		"PinLs",
-		"recursive",
-		&ipsMap,
-	)
-	if err != nil {
-		logger.Error(err)
-		return nil, err
-	}
-	pins := make(map[cid.Cid]*api.PinInfo, len(ipsMap))
-	for cidstr, ips := range ipsMap {
-		c, err := cid.Decode(cidstr)
+	pins := make(map[cid.Cid]api.IPFSPinStatus)
+	// Pins tracked by cluster are either recursive or direct.
+	for _, typeFilter := range []string{"recursive", "direct"} {
+		var ipsMap map[string]api.IPFSPinStatus
+		err := spt.rpcClient.CallContext(
+			ctx,
+			"",
+			"IPFSConnector",
+			"PinLs",
+			typeFilter,
+			&ipsMap,
+		)
 		if err != nil {
 			logger.Error(err)
-			continue
+			return nil, err
 		}
-		p := &api.PinInfo{
-			Cid:  c,
-			Name: "", // to be filled later
-			Peer: spt.peerID,
-			PinInfoShort: api.PinInfoShort{
-				PeerName: spt.peerName,
-				Status:   ips.ToTrackerStatus(),
-				TS:       time.Now(),
-			},
+		for cidstr, ips := range ipsMap {
+			c, err := cid.Decode(cidstr)
+			if err != nil {
+				logger.Error(err)
+				continue
+			}
+			pins[c] = ips
 		}
-		pins[c] = p
 	}
 	return pins, nil
 }
@@ -521,7 +514,7 @@ func (spt *Tracker) localStatus(ctx context.Context, incExtra bool, filter api.T
 		}
 	}
 
-	var localpis map[cid.Cid]*api.PinInfo
+	var localpis map[cid.Cid]api.IPFSPinStatus
 	// Only query IPFS if we want to status for pinned items
 	if filter.Match(api.TrackerStatusPinned | api.TrackerStatusUnexpectedlyUnpinned) {
 		localpis, err = spt.ipfsStatusAll(ctx)
@@ -533,7 +526,7 @@ func (spt *Tracker) localStatus(ctx context.Context, incExtra bool, filter api.T
 
 	pininfos := make(map[cid.Cid]*api.PinInfo, len(statePins))
 	for _, p := range statePins {
-		ipfsInfo, pinnedInIpfs := localpis[p.Cid]
+		ipfsStatus, pinnedInIpfs := localpis[p.Cid]
 		// base pinInfo object - status to be filled.
 		pinInfo := api.PinInfo{
 			Cid:  p.Cid,
@@ -558,9 +551,12 @@ func (spt *Tracker) localStatus(ctx context.Context, incExtra bool, filter api.T
 			}
 			pinInfo.Status = api.TrackerStatusRemote
 			pininfos[p.Cid] = &pinInfo
-		case pinnedInIpfs: // always false unless filter matches TrackerStatusPinnned
-			ipfsInfo.Name = p.Name
-			pininfos[p.Cid] = ipfsInfo
+		case pinnedInIpfs && ipfsStatus.IsPinned(p.MaxDepth):
+			// always false unless filter matches TrackerStatusPinnned.
+			// Pinned only when IPFS holds it in the recorded mode,
+			// like Status() reports it.
+			pinInfo.Status = ipfsStatus.ToTrackerStatus()
+			pininfos[p.Cid] = &pinInfo
 		default:
 			// report as UNEXPECTEDLY_UNPINNED for this peer.
 			// this will be overwritten if the operation tracker
